@@ -38,6 +38,11 @@ class Act:
         self.anc = frozenset() if parent is None else parent.anc | {parent.id}
 
 
+class _Thrown:
+    def __init__(self, exc):
+        self.exc = exc
+
+
 class Tracer:
     def __init__(self, hook=None, decl_hook=None):
         self.events = []
@@ -192,12 +197,18 @@ class Tracer:
         v = self.yld(a, v)
         try:
             got = yield v
+        except StopIteration as e:
+            # thrown in: it cannot leave a generator as it is (PEP 479) -- recv raises it again,
+            # in the traced generator itself
+            got = _Thrown(e)
         finally:
             self._touch(a)
         return got
 
     def recv(self, a, v):
         self._touch(a)
+        if type(v) is _Thrown:
+            raise v.exc
         if self.hook is not None:
             v = self.hook(a.fn, "#receive", v, a, self)
         self._ev(a, "receive", "#receive", canon(v), v)
